@@ -7,6 +7,7 @@ import (
 	"go/printer"
 	"go/token"
 	"os"
+	"path/filepath"
 	"regexp"
 	"strings"
 
@@ -77,6 +78,17 @@ func NewParser(srcPath, dstPath string) (*Parser, error) {
 			fileSrc = file
 			return file, nil
 		},
+	}
+	if dstStat != nil {
+		// Whatever a previous (possibly interrupted) run left at the output path must not take
+		// part in loading the package: a file cut inside its package clause, for instance,
+		// makes "go list" see a second package name.  Present it as an empty file of the
+		// setup file's package.
+		if f, err := parser.ParseFile(token.NewFileSet(), srcPath, nil, parser.PackageClauseOnly); err == nil {
+			if abs, err := filepath.Abs(dstPath); err == nil {
+				cfg.Overlay = map[string][]byte{abs: []byte("package " + f.Name.Name + "\n")}
+			}
+		}
 	}
 	pkgs, err := packages.Load(cfg, "file="+srcPath)
 	if err != nil {
